@@ -125,6 +125,7 @@ class FastaRef(object):
             with open(fasta.__file__.replace('.pyc', '.py')) as fid:
                 source = fid.read()
         self.source_rows = {}
+        self.nonliteral_averages = []
         self._read(ast.parse(source))
         self._build()
 
@@ -152,8 +153,15 @@ class FastaRef(object):
             elif isinstance(stmt, ast.Expr) and isinstance(stmt.value, ast.Call):
                 f = stmt.value.func
                 if isinstance(f, ast.Name) and f.id == '_set_amino_acid_average':
-                    args = [_lit(a) for a in stmt.value.args]
-                    averages.append((args[0], args[1]))
+                    try:
+                        args = [_lit(a) for a in stmt.value.args]
+                        averages.append((args[0], args[1]))
+                    except Exception:
+                        # the member list is computed rather than written out: the reference then
+                        # takes what the code stands for from the IUPAC definition
+                        target = _lit(stmt.value.args[0])
+                        averages.append((target, IUPAC['aa'][target]))
+                        self.nonliteral_averages.append(target)
         need = ['AMINO_ACID_CODES', 'RNA_BASES', 'DNA_BASES', 'RNA_CODES,DNA_CODES']
         for n in need:
             if not tables.get(n):
